@@ -1,8 +1,13 @@
 (* Graph.v - executable model of liesel's cached computational graph
    (liesel/model/nodes.py: Node, Value, Calc, TransientNode, Dist ...; liesel/model/model.py: Model).
 
-   NO PROOFS IN THIS FILE (they are in GraphRec.v, GraphProofs.v, GraphMemo.v), so that the model keeps
-   evaluating when a proof breaks.  Shared by the checks for C01 (cache coherence), C03, C09, C17.
+   NO PROOFS IN THIS FILE, so that the model keeps evaluating when a proof breaks:
+     GraphProofs.v    invariant Inv / RInv, inv_coherent, sweep_spec, assign_flag_Inv, snapshot_ok,
+                      step_RInv / run_RInv / init_RInv, reaches_path, the C01 theorems
+     GraphMemo.v      step_with memo = step_with lit on reachable states (memo_reach, observe_memo_lit)
+     GraphExamples.v  a concrete 7-node diamond with a transient node (non-vacuity)
+     CorrC01.v        Z-valued instance (fsym, interp) and the agreement predicate of the C01 shards
+   Shared by the checks for C01 (cache coherence), C03, C09, C13, C17.
 
    API (everything lives in Section G and is parametrised by
           V : Type                     node values
@@ -28,7 +33,8 @@
      impl            record of the three graph traversals used by the operations, with two instances:
        lit             defined through the fuelled readers            (what the theorems talk about)
        memo            one left-to-right pass with a table            (what vm_compute runs; GraphMemo.v
-                                                                       proves  step_with memo = step_with lit)
+                                                                       proves  step_with memo = step_with lit
+                                                                       on every state reachable from init)
      sweep g tgt s   Model.update loop: returns (state, list of evaluated cached nodes in order)
      assign_flag     Value.value setter without the auto-update part
      tgt_tab         recursive inputs of the targets (Model._recursive_inputs) as a bool table
